@@ -71,7 +71,7 @@ func (o *Out) flush() error {
 			}
 			fmt.Fprintf(w, "%s%s\n", o.cases[i].Coq, sep)
 		}
-		fmt.Fprintf(w, "].\nDefinition M := Eval vm_compute in mismatches %s cases.\nDefinition H := Eval vm_compute in tag_hist %s cases.\nPrint M.\nPrint H.\n", o.p.chk, o.p.chk)
+		fmt.Fprintf(w, "].\nDefinition V := Eval vm_compute in map %s cases.\nDefinition M := Eval vm_compute in mism_of V.\nDefinition H := Eval vm_compute in hist_of V.\nPrint M.\nPrint H.\n", o.p.chk)
 		if err := w.Flush(); err != nil {
 			return err
 		}
